@@ -234,7 +234,7 @@ impl Engine for C05 {
                 let d = padded_dict(*dict_seed, *content_len as usize)?;
                 let (mlc, mle, _) = crate::fsepre::ml_code((*ml).clamp(3, 131_074));
                 let (ofc, ofe, _) = crate::fsepre::of_code((*offset).max(1) + 3);
-                let block = SynthBlock::Seq { lits: SynthLits::Rle { byte: b'd', len: *tail_lits as u32 }, ll_code: 0, ml_code: mlc, of_code: ofc, extras: vec![[0, mle, ofe]; (*per_block).max(1) as usize] };
+                let block = SynthBlock::Seq { lits: SynthLits::Rle { byte: b'd', len: *tail_lits as u32 }, ll_code: 0, ml_code: mlc, of_code: ofc, extras: vec![[ofe, mle, 0]; (*per_block).max(1) as usize] };
                 let spec = SynthSpec { header: synth::SynthHeader { single_segment: false, fcs_width: 0, fcs_value: None, window_desc: synth::wd(*window_log), checksum: false, dict_id: Some((d.1, 4)) }, blocks: vec![block; (*nblocks).max(1) as usize] };
                 let b = synth::build(&spec, &[], [1, 4, 8]);
                 dict_raw = Some(d);
